@@ -48,6 +48,10 @@ def _one(job):
             os.unlink(yml)
         except OSError:
             pass
+        sem = [e for e in evs if e["ev"] == "semantics"]
+        if sem and len(sem[0]["kernel"]) > 80:
+            # very large kernels (whole unmarked files): the reference cycle enumeration is not bounded
+            return {"id": jid, "skipped": "kernel of %d lines" % len(sem[0]["kernel"]), "argv": argv}
         return {"id": jid, "fixed": fixed, "flagDeps": flagdeps, "events": evs, "argv": argv}
     except BaseException as e:   # SystemExit from argument checks included
         return {"id": jid, "error": "%s: %s" % (type(e).__name__, e), "argv": argv}
@@ -83,6 +87,8 @@ def whole_runs(run, pid, tier, seed, n_quick=36):
     with concurrent.futures.ProcessPoolExecutor(12, mp_context=ctx) as pool:
         res = list(pool.map(_one, jobs))
     shutil.rmtree(work, ignore_errors=True)
+    run.note("whole_run_skipped_large", len([r for r in res if "skipped" in r]))
+    res = [r for r in res if "skipped" not in r]
     good = [r for r in res if "error" not in r]
     bad = [r for r in res if "error" in r]
     for r in bad:
